@@ -92,6 +92,19 @@ def run(ctx, rep):
                 continue
             size_calls = [s for s in walk(n.get("e")) if s.get("k") == "call" and
                           strip_targs(s.get("fn") or "").endswith(("::size", "::length"))]
+            len_var = None
+            if not size_calls:
+                # the length cached in a local first: `const size_t length = str.size();`
+                v = n.get("e")
+                while isinstance(v, dict) and v.get("k") in ("icast", "cast", "copy"):
+                    v = v.get("e")
+                if isinstance(v, dict) and v.get("k") == "var" and "d" in v:
+                    for b2, ev2 in fn.events():
+                        if ev2["k"] == "decl" and (ev2.get("var") or {}).get("d") == v["d"] and isinstance(ev2.get("e"), dict):
+                            size_calls = [s for s in walk(ev2["e"]) if s.get("k") == "call" and
+                                          strip_targs(s.get("fn") or "").endswith(("::size", "::length"))]
+                            if size_calls:
+                                len_var = v["d"]
             if not size_calls:
                 continue
             sc = size_calls[0]
@@ -107,7 +120,9 @@ def run(ctx, rep):
                             continue
                         hit = any(s.get("k") == "call" and s.get("m") == sc.get("m") and
                                   same_obj(root_var(s.get("obj")), root_var(sc.get("obj")))
-                                  for s in walk(side))
+                                  for s in walk(side)) or \
+                            (len_var is not None and any(s.get("k") == "var" and s.get("d") == len_var
+                                                         for s in walk(side)))
                         if not hit:
                             continue
                         if (o == "<=" and c <= limit) or (o == "<" and c <= limit + 1) or \
